@@ -13,6 +13,29 @@ CLAIMS = {
    note="trusts tokio's paused clock (1 tick = 1 s), TLC, and that equal abstract states behave equally (every edge is "
         "replayed from the initial state along one path)",
    technique="TLA+ reference model (LocalKV.tla) + exhaustive edge replay + TLC trace validation"),
+ "C02": dict(
+   level=("model_checking", "Gossip.tla (implementation-shaped model of the cluster, one action per Chitchat entry point) is model-checked by TLC for small constants "
+          "with the ledger-exactness invariant C02_NoResurrection in every state; every transition of the quick config is replayed on real nodes with whole projected states compared; "
+          "seeded random cluster scenarios (3-4 nodes, deletes, TTL, GC, partitions, late joiners, loss, duplication, reordering) are recorded from the real code and validated by TLC against the same actions and invariants; "
+          "non-conforming executions are judged by the observer specification on the logged real states, after amplification by random continuations.", "6 (C02), 2.2"),
+   note="bounded scopes (exhaustive only for the listed constants); known finding KF-1 is exempted by its ghost-variable signature mid[x] (known_findings.json) and its witness is replayed on every run; trusts TLC, the projection through chitchat's public API and the independent wire codec",
+   technique="TLA+ model checking (Gossip.tla) + edge replay + TLC trace validation + observer spec on real traces"),
+ "C03": dict(
+   level=("model_checking", "Same Gossip.tla runs as C02 with the invariant C03_Integrity (every entry of every copy, every in-flight delta and digest is a ledger write of its owner with the same key/value/version/status; no copy or digest runs ahead of the owner) evaluated in every model state and on every step of every validated real trace.", "6 (C03)"),
+   note="values are distinct per write in the driver so cross-wiring is visible; bounded scopes; one incarnation per ChitchatId",
+   technique="TLA+ model checking (Gossip.tla) + edge replay + TLC trace validation + observer spec on real traces"),
+ "C04": dict(
+   level=("model_checking", "Gossip.tla action properties C04_Monotonic (lexicographic (gc,max) per copy, key versions) and C04_FreshVersion, invariant C04_NoPanic, on the model and on every real step (replayed edges, validated driver traces; a panic caught in process_message is data).", "6 (C04)"),
+   note="the static (copy, delta) pair enumeration of Agreement.tla is added to this check when that module lands; bounded scopes",
+   technique="TLA+ model checking (Gossip.tla) + edge replay + TLC trace validation + observer spec on real traces"),
+ "C05": dict(
+   level=("model_checking", "Gossip.tla action property C05_OwnUntouched (own key-values/max/gc change only through the local API and own GC; heartbeat +1 only on process/heartbeat) and invariant C05_OwnerAhead, on the model and on every real step.", "6 (C05)"),
+   note="bounded scopes; one incarnation per ChitchatId; honest peers only",
+   technique="TLA+ model checking (Gossip.tla) + edge replay + TLC trace validation + observer spec on real traces"),
+ "C20": dict(
+   level=("model_checking", "Gossip.tla action property C20_Callback: per processed message the callback counter grows by exactly 1 iff some copy's GC watermark strictly increased during that call (observable definition of a reset), else 0; evaluated on the model and on every real step.", "6 (C20)"),
+   note="the C14-scope pair enumeration is added with Agreement.tla; bounded scopes",
+   technique="TLA+ model checking (Gossip.tla) + edge replay + TLC trace validation + observer spec on real traces"),
 }
 PENDING = "specification module for this property not built yet in this revision (see DESIGN.md section 10 build order)"
 
@@ -22,7 +45,7 @@ m = {
  "hooks": {
    "guard": "cargo feature `verif` of the chitchat crate (chitchat/Cargo.toml [features] verif = [])",
    "enable": "the harness depends on chitchat by path with features = [\"verif\"] (harness/Cargo.toml); cargo build --release --offline in /verif/harness",
-   "baseline_off_cmd": "cd /repo && cargo test --workspace --no-fail-fast --offline",
+   "baseline_off_cmd": "cd /repo && RUSTUP_TOOLCHAIN=1.88.0 cargo test --workspace --no-fail-fast --offline",
    "source_commits": json.load(open(os.path.join(HERE, "hook_commits.json"))),
    "add_only": True,
  },
